@@ -176,7 +176,7 @@ def main() -> int:
                                       "original_sql": first[t][0], "renamed_sql": c, "original_result": first[t][1], "renamed_result": g,
                                       "spec": "renaming statement-local names (or adding/removing AS) leaves tables and end-to-end column pairs unchanged"})
         # a table alias with a derived column list: tab [AS] a (c1, c2) - the alias names the table whatever it is called and
-        # whether or not AS is written.  Without AS the unchanged code takes the column list for the alias (recorded K-C08-1).
+        # whether or not AS is written.  (Repaired defect F-C08-1: without AS the column list used to be taken for the alias.)
         if d in ("ansi", "postgres", "snowflake", "sparksql") or not quick:
             templ_c = [("insert into tgt select {A}.c1 from tab {AS}{A} (c1, c2)", "R=<default>.tab;W=<default>.tgt#<default>.tab.c1><default>.tgt.c1"),
                        ("insert into tgt select {A}.c1, u.k from s1.tab {AS}{A} (c1, c2) join u on 1 = 1",
@@ -193,18 +193,11 @@ def main() -> int:
                     continue
                 ck.nontriv((d, "alias-with-column-list", c))
                 case = {"suite": "metamorphic-rename", "dialect": d, "pool": "alias-with-column-list", "sql": c, "result": g}
-                if asw == "":
-                    # recorded defect: the reference a.c1 is attributed to a table called like the alias
-                    if want is not None and g == want:
-                        continue                 # repaired
-                    if ("<default>.%s.c1>" % a) in g or want is None:
-                        known_c08.setdefault("K-C08-1", case)
-                        continue
-                    spec_failures.append(dict(case, spec=want))
-                    continue
+                # (before fix 62bbb18 the form without AS attributed a.c1 to a table called like the alias: F-C08-1)
                 if want is not None and g != want:
-                    spec_failures.append(dict(case, spec=want, detail="the alias names the table: a column qualified by it is a column of that table"))
-                key = (t, asw)
+                    spec_failures.append(dict(case, spec=want, detail="the alias names the table, with or without AS: a column qualified by it is a column of that table"))
+                    continue
+                key = t        # the same result for every alias name and with or without AS
                 if key not in first_c:
                     first_c[key] = (c, g)
                 elif first_c[key][1] != g:
